@@ -288,6 +288,27 @@ class Ctx:
             return "coq error: " + m.group(0)
         return "not provable/defined (%s): %s" % (rel, out.strip()[-400:])
 
+    def coqchk(self, modules, timeout=2400):
+        """Thorough tier: re-check the compiled property modules (and everything they depend on) with the
+        independent checker and record the axioms it reports (`coqchk -silent -o`)."""
+        t = time.time()
+        cmd = ["coqchk", "-silent", "-o", "-Q", ".", "PintV"] + ["PintV." + m for m in modules]
+        rc, out = sh(cmd, cwd=COQ, timeout=timeout)
+        if rc != 0:   # a concurrent make may have been rewriting a .vo: retry once under the lock
+            with Lock("coq"):
+                rc, out = sh(cmd, cwd=COQ, timeout=timeout)
+        self.log("coqchk %s: rc=%d %.1fs" % (" ".join(modules), rc, time.time() - t))
+        summ = out[out.find("CONTEXT SUMMARY"):] if "CONTEXT SUMMARY" in out else out[-1500:]
+        ax = re.search(r"\* Axioms:(.*?)\n\s*\n\* Constants", summ, re.S)
+        axioms = " ".join((ax.group(1) if ax else "?").split())
+        self.cov["coqchk"] = {"rc": rc, "axioms": axioms, "summary": " ".join(summ.split())[:1500]}
+        ok = (rc == 0 and "type-in-type: <none>" in summ and "unsafe (co)fixpoints: <none>" in summ
+              and "positivity is assumed: <none>" in summ)
+        self.obligations.append({"name": "coqchk(" + ",".join(modules) + ")", "ok": ok, "assumptions": "coqchk axioms: " + axioms})
+        if not ok:
+            self.broken.append("coqchk does not accept the compiled development: " + summ[-800:])
+        return ok
+
     def coqc_cases(self, files, timeout=900):
         """Compile case files in parallel; returns {file: stdout}."""
         procs = []
@@ -466,6 +487,8 @@ def standard(ctx, spec):
         ctx.check_theorems(module, thms, spec.get("allowed_axioms", ()))
     if not ok_make and not ctx.broken:
         ctx.broken.append("coq development does not build: " + getattr(ctx, "make_out", "")[-1500:])
+    if ok_make and ctx.tier == "thorough" and not spec.get("no_coqchk"):
+        ctx.coqchk(list(spec["theorems"].keys()))
     report = None
     mism_total = []
     if ctx.build_harness():
@@ -488,7 +511,7 @@ def standard(ctx, spec):
     if report is not None:
         ev = dict(evaluations=report.get("evaluations", 0), distinct_nontrivial=report.get("distinct_nontrivial", 0),
                   rule=report.get("rule", ""), samples=(report.get("samples") or [])[:3],
-                  extra={"input_distribution": report.get("histogram", {}),
+                  extra={"input_distribution": report.get("histogram", {}), "coqchk": ctx.cov.get("coqchk"),
                          "model_vs_impl_cases": ctx.cov.get("model_cases", 0),
                          "model_vs_impl_mismatches": len(mism_total),
                          "oracle_failures": len(report.get("oracle_failures") or []),
